@@ -99,6 +99,33 @@ class Chooser:
     def number(self):
         return self.integer() if self.bool() else self.float()
 
+    def ident(self):
+        """A random legal identifier ([a-zA-Z_][a-zA-Z0-9_]*, not a keyword)."""
+        first = "abcdefghijklmnopqrstuvwxyzABCDEFGHIJKLMNOPQRSTUVWXYZ_"
+        rest = first + "0123456789"
+        while True:
+            n = self.r.choice([1, 2, 3, 5, 9, 24])
+            s = self.r.choice(first) + "".join(self.r.choice(rest) for _ in range(n - 1))
+            if self.r.random() < 0.3:
+                s = self.r.choice(["loop", "let", "map", "register", "macro", "from", "as", "subcircuit", "branch", "e", "E", "x0"]) + s
+            if s not in KEYWORDS and s != "version":
+                return s
+
+    def names(self, pool, n, taken=(), p_random=0.15):
+        """n distinct names: mostly from the small pool (so collisions/shadowing stay frequent),
+        sometimes random legal identifiers."""
+        out = []
+        avail = [x for x in pool if x not in taken]
+        self.r.shuffle(avail)
+        while len(out) < n:
+            if avail and self.r.random() >= p_random:
+                c = avail.pop()
+            else:
+                c = self.ident()
+            if c not in out and c not in taken:
+                out.append(c)
+        return out
+
     def small_number(self):
         if self.r.random() < 0.6:
             return self.r.randint(-3, 9)
@@ -149,6 +176,7 @@ class Cfg:
     general_numbers: bool = True  # full literal mixture (else small numbers only)
     let_counts: bool = True
     macro_bias: int = 2  # a gate statement is a macro call with probability 1/(macro_bias+1)
+    random_names: float = 0.15  # probability that a declared name is a random legal identifier
 
 
 @dataclass
@@ -184,11 +212,11 @@ class Builder:
         ch, cfg, sc = self.ch, self.cfg, self.sc
         if cfg.usepulses and ch.int(0, 3) == 0:
             prog["usepulses"] = ch.sample(PULSE_POOL, ch.int(1, 2))
-        for n in ch.sample(LET_POOL, ch.int(0, cfg.max_lets)):
+        for n in ch.names(LET_POOL, ch.int(0, cfg.max_lets), p_random=cfg.random_names):
             v = ch.int(0, 6) if ch.int(0, 9) < 6 else self.num()
             prog["lets"].append([n, v])
             sc.lets[n] = int(v) if isinstance(v, float) and math.isfinite(v) and v == int(v) else v
-        rname = ch.pick(REG_POOL)
+        rname = ch.names(REG_POOL, 1, taken=list(sc.lets), p_random=cfg.random_names)[0]
         size = ch.int(1, cfg.max_reg)
         cands = [n for n, v in sc.lets.items() if is_int(v) and 1 <= v <= cfg.max_reg]
         if cands and ch.int(0, 2) == 0:
@@ -200,7 +228,7 @@ class Builder:
             prog["reg"] = [rname, size]
         sc.regs[rname] = tuple(range(size))
         last = rname
-        for mn in ch.sample(MAP_POOL, ch.int(0, cfg.max_maps)):
+        for mn in ch.names(MAP_POOL, ch.int(0, cfg.max_maps), taken=list(sc.lets) + [rname], p_random=cfg.random_names):
             src = last if (last in sc.regs and ch.bool()) else ch.pick(list(sc.regs))
             el = sc.regs[src]
             form = ch.pick(["whole", "index", "slice", "slice"])
@@ -473,7 +501,7 @@ class Builder:
         ch, cfg = self.ch, self.cfg
         prog = empty_prog()
         self.header(prog)
-        for mn in ch.sample(MACRO_POOL, ch.int(0, cfg.max_macros)):
+        for mn in ch.names(MACRO_POOL, ch.int(0, cfg.max_macros), taken=list(cfg.natives or ()) + (GATE_POOL if cfg.natives is None else []), p_random=cfg.random_names):
             self.macro(prog, mn)
         prog["body"] = self.block_items("top", 0, False, False, cfg.max_body)
         return prog
